@@ -144,15 +144,20 @@ def read_sources(ctx):
     return sol, cli
 
 
-def par(jobs):
+def par(jobs, limit=4):
+    """Run the jobs on threads, at most `limit` at a time (the machine is shared: never more than a few JVMs)."""
     import threading
     res, errs = [None] * len(jobs), []
+    gate = threading.Semaphore(limit)
 
     def w(i, f):
-        try:
-            res[i] = f()
-        except BaseException as e:      # noqa
-            errs.append(e)
+        with gate:
+            if errs:
+                return
+            try:
+                res[i] = f()
+            except BaseException as e:      # noqa
+                errs.append(e)
     ts = [threading.Thread(target=w, args=(i, f)) for i, f in enumerate(jobs)]
     for t in ts:
         t.start()
@@ -173,20 +178,20 @@ def run(ctx):
     gen_dkg = ctx.pick(["Gen_N4q"], ["Gen_N4", "Gen_N5", "Gen_N6"])
     gen_claim = ctx.pick(["Gen_Claim4"], ["Gen_Claim4", "Gen_Claim5", "Gen_Claim6"])
     T = ctx.pick(2400, 6000)
-    jobs = []
-    for c in mc_dkg:
-        jobs.append(lambda c=c: ("mcd", c, ctx.tlc(SPEC, "MC_ChainRules", cfg=c, coverage=True, label=c, timeout=T, workers=4)))
-    for c in mc_claim:
-        jobs.append(lambda c=c: ("mcc", c, ctx.tlc(SPEC, "MC_InactivityClaim", cfg=c, coverage=True, label=c, timeout=T, workers=4)))
-    for c, mod in (("MC_Hazard", "MC_ChainRules"), ("MC_WeakGate", "MC_ChainRules"),
-                   ("MC_ClaimHazard", "MC_InactivityClaim"), ("MC_ClaimWeakGate", "MC_InactivityClaim")):
-        jobs.append(lambda c=c, mod=mod: ("neg", c, ctx.tlc(SPEC, mod, cfg=c, label=c, timeout=T, workers=2, expect=("violation",))))
+    jobs = []      # longest first; par() keeps at most 4 TLC processes alive
     for c in gen_dkg:
         jobs.append(lambda c=c: ("gend", c, ctx.tlc(SPEC, "Gen_ChainRules", cfg=c, workers=1, label=c, dump_trace=False,
-                                                    coverage=True, timeout=T)))
+                                                    coverage=True, timeout=T, heap="1g")))
     for c in gen_claim:
         jobs.append(lambda c=c: ("genc", c, ctx.tlc(SPEC, "Gen_InactivityClaim", cfg=c, workers=1, label=c, dump_trace=False,
-                                                    coverage=True, timeout=T)))
+                                                    coverage=True, timeout=T, heap="1g")))
+    for c in mc_dkg:
+        jobs.append(lambda c=c: ("mcd", c, ctx.tlc(SPEC, "MC_ChainRules", cfg=c, coverage=True, label=c, timeout=T, workers=2, heap="2g")))
+    for c in mc_claim:
+        jobs.append(lambda c=c: ("mcc", c, ctx.tlc(SPEC, "MC_InactivityClaim", cfg=c, coverage=True, label=c, timeout=T, workers=2, heap="2g")))
+    for c, mod in (("MC_Hazard", "MC_ChainRules"), ("MC_WeakGate", "MC_ChainRules"),
+                   ("MC_ClaimHazard", "MC_InactivityClaim"), ("MC_ClaimWeakGate", "MC_InactivityClaim")):
+        jobs.append(lambda c=c, mod=mod: ("neg", c, ctx.tlc(SPEC, mod, cfg=c, label=c, timeout=T, workers=1, heap="1g", expect=("violation",))))
     cases, claims = [], []
     for kind, c, r in par(jobs):
         if kind in ("mcd", "gend"):
@@ -219,14 +224,14 @@ def run(ctx):
         return hot + rnd.sample(cold, min(len(cold), n))
     t_cases = sample(cases, ctx.pick(1500, 12000))
     t_claims = sample(claims, ctx.pick(800, 6000))
-    env = {"VERIF_RUNS": ctx.pick(24, 240)}
+    env = {"VERIF_RUNS": ctx.pick(24, 240), "GOFLAGS": "-mod=mod -p=4"}
     for k, v in sol.items():
         env["VERIF_C40_SOL_" + k] = v
     for k, v in cli.items():
         env["VERIF_C40_CLIENT_" + k] = v
     ge, gt = par([
         lambda: ctx.gotest("pkg/chain/ethereum", "^TestVerif_C40_", ["c40_test.go"], inputs={"cases.ndjson": cases, "claims.ndjson": claims},
-                           extra_overlay=OV, env={"VERIF_RUNS": ctx.pick(60, 600)}, label="chain", timeout=ctx.pick(3000, 7200)),
+                           extra_overlay=OV, env={"VERIF_RUNS": ctx.pick(60, 600), "GOFLAGS": "-mod=mod -p=4"}, label="chain", timeout=ctx.pick(3000, 7200)),
         lambda: ctx.gotest("pkg/tbtc", "^TestVerif_C40_", ["c40_test.go", "c40_export_test.go"],
                            inputs={"cases.ndjson": t_cases, "claims.ndjson": t_claims}, extra_overlay=OV_T, env=env, label="submit",
                            timeout=ctx.pick(3000, 7200)),
